@@ -18,11 +18,12 @@ case "$line" in
 esac
 dest=/verif/seeded/$id-seed$n
 rm -rf $dest; mkdir -p $dest; cp $tmp/* $dest/
-python3 - "$id" "$n" "$needs" "$line" <<'PY'
+python3 - "$id" "$n" "$needs" "$line" "${ROUND:-4}" <<'PY'
 import json,sys
-id,n,needs,line=sys.argv[1:5]
-json.dump({"id":f"{id}-seed{n}","breaks_property":id,"round":4,
- "origin":"fresh sub-agent given only the property text, a list of already known mechanisms to avoid, and its own scratch worktree of /repo (HEAD 89a02bd); nothing from /verif. Asked for a change a maintainer lands on purpose: an optimisation, a hardening change, a small feature/generalisation or a modernisation",
+id,n,needs,line,rnd=sys.argv[1:6]
+origins={"4":"Asked for a change a maintainer lands on purpose: an optimisation, a hardening change, a small feature/generalisation or a modernisation","5":"Asked for any realistic change, preferably one where two places of the code that must agree (writer/reader, guard/guarded, table/lookup) are changed inconsistently, on clauses the known mechanisms had not touched"}
+json.dump({"id":f"{id}-seed{n}","breaks_property":id,"round":int(rnd),
+ "origin":"fresh sub-agent given only the property text, a list of already known mechanisms to avoid, and its own scratch worktree of /repo (current HEAD); nothing from /verif. "+origins.get(rnd,""),
  "needs_to_manifest":needs,
  "demo":"demo_test.go.txt (copy into the package directory named in DEST as a _test.go file)",
  "confirmed_by":"tools/confirm_seed.sh in a scratch worktree: suite passes with the patch, demo fails with the patch, demo passes without it",
